@@ -5,5 +5,5 @@ From Coq Require Import ExtrOcamlBasic.
 From C11 Require Import Model PolyModel.
 Extraction Language OCaml.
 Cd "ocaml".
-Extraction "model.ml" ratrecon RR7 RR4 RR6 RR6f RatCtor QF_ratrecon_k QF_ratrecon zp_ratrecon5 zp_ratreconcheck zp_ratrecon6.
+Extraction "model.ml" ratrecon RR7 RR4 RR6f RatCtor QF_ratrecon_k QF_ratrecon zp_ratrecon5 zp_ratreconcheck zp_ratrecon6.
 Cd "..".
